@@ -62,6 +62,29 @@ static size_t v_log_bits[V_MAXCALLS];			/* block_size_bits argument per call */
 static uint8_t v_log_N[V_MAXCALLS][64];			/* counter N seen on entry */
 static uint8_t v_log_sigma[V_MAXCALLS][64];		/* Sigma seen on entry */
 
+#ifdef V_GOST_FAST
+/* Word-wise variant of the stub bookkeeping (C07/ghmac.c): the same N += bits, Sigma += block, but on the uint64_t[8]
+ * representation and with typed logs - an order of magnitude fewer symbolic-execution steps than the byte-wise copies.
+ * C07's job gost-add512w-lemma decides v_gost_add512w == v_gost_add512 (the byte-wise reference adder) for all inputs. */
+static uint64_t v_log_Nw[V_MAXCALLS][8];		/* counter N seen on entry, little endian words */
+static uint64_t v_log_Sw[V_MAXCALLS][8];		/* Sigma seen on entry */
+static inline uint64_t v_ld64(const uint8_t *p) {
+	return ((uint64_t)p[0] | ((uint64_t)p[1] << 8) | ((uint64_t)p[2] << 16) | ((uint64_t)p[3] << 24) |
+	    ((uint64_t)p[4] << 32) | ((uint64_t)p[5] << 40) | ((uint64_t)p[6] << 48) | ((uint64_t)p[7] << 56));
+}
+static void v_gost_add512w(uint64_t *a, const uint64_t *b) {
+	unsigned c = 0;
+	for (int i = 0; i < 8; i++) {
+		uint64_t s = a[i] + b[i];
+		unsigned c1 = (s < a[i]);
+		uint64_t t = s + c;
+		unsigned c2 = (t < s);
+		a[i] = t;
+		c = c1 | c2;
+	}
+}
+#endif
+
 static void v_gost_havoc(struct gost3411_2012_ctx_s *ctx, unsigned k, int buffer_too) {
 	for (size_t i = 0; i < 8; i++) {
 		ctx->kbuf[i] = v_havoc[k][i];
@@ -73,8 +96,26 @@ static void v_gost_havoc(struct gost3411_2012_ctx_s *ctx, unsigned k, int buffer
 }
 static void v_gost_tn_stub(struct gost3411_2012_ctx_s *ctx, const size_t bits, const uint8_t *blocks, const uint8_t *blocks_max) {
 	for (unsigned guard = 0; blocks < blocks_max && guard < V_MAXCALLS; blocks += A_BLK, guard++) {
-		uint8_t bits512[64] = { 0 };
 		unsigned k = v_ncalls;
+#ifdef V_GOST_FAST
+		uint64_t bw[8] = { 0 }, mw[8];
+		if (k < V_MAXCALLS) {
+			v_log_bits[k] = bits;
+			for (size_t i = 0; i < 8; i++) {
+				v_log_Nw[k][i] = ctx->counter[i];
+				v_log_Sw[k][i] = ctx->sigma[i];
+			}
+		}
+		k = v_abs_step(ctx->hash, blocks);
+		if (k >= V_MAXCALLS)
+			return;
+		bw[0] = (uint64_t)bits;
+		for (size_t i = 0; i < 8; i++)
+			mw[i] = v_ld64(&v_log_blk[k][8 * i]);
+		v_gost_add512w(ctx->counter, bw);
+		v_gost_add512w(ctx->sigma, mw);
+#else
+		uint8_t bits512[64] = { 0 };
 		if (k < V_MAXCALLS) {
 			v_log_bits[k] = bits;
 			memcpy(v_log_N[k], ctx->counter, 64);
@@ -87,6 +128,7 @@ static void v_gost_tn_stub(struct gost3411_2012_ctx_s *ctx, const size_t bits, c
 			bits512[i] = (uint8_t)(bits >> (8 * i));
 		v_gost_add512((uint8_t *)ctx->counter, bits512);
 		v_gost_add512((uint8_t *)ctx->sigma, v_log_blk[k]);
+#endif
 		v_gost_havoc(ctx, k, blocks != (const uint8_t *)ctx->buffer);
 	}
 	V_ASSERT(!(blocks < blocks_max), "transform asked for more blocks than any padded message of this shape has");
@@ -95,8 +137,10 @@ static void v_gost_t1_stub(struct gost3411_2012_ctx_s *ctx, const uint64_t *bloc
 	unsigned k = v_ncalls;
 	if (k < V_MAXCALLS) {
 		v_log_bits[k] = V_GOST_T1;
+#ifndef V_GOST_FAST
 		memcpy(v_log_N[k], ctx->counter, 64);
 		memcpy(v_log_sigma[k], ctx->sigma, 64);
+#endif
 	}
 	k = v_abs_step(ctx->hash, (const uint8_t *)block);
 	if (k < V_MAXCALLS)
